@@ -647,8 +647,14 @@ class NUMERIC(FieldType):
         return min_value, max_value
 
     def default_column(self):
-        return columns.NumericColumn(self.sortable_typecode,
-                                     default=self.default)
+        default = self.default
+        if self.numtype is float:
+            # The column stores floats in their sortable (integer) form
+            if default != default:
+                # NaN marks "no value"; use a NaN this field can encode
+                default = self.max_value
+            default = to_sortable(float, self.bits, self.signed, default)
+        return columns.NumericColumn(self.sortable_typecode, default=default)
 
     def is_valid(self, x):
         try:
